@@ -17,8 +17,9 @@ RULE = ("random controller projects (user tags of every kind, 0-3 programs with 
         "aliased by visible BOOL members and the bare-name template form, every fourth project a member array and a string capacity of 32767 / 32768 / 40000 / 65535 elements, "
         "every fourth a family of types nested 9 to 14 levels with a single tag, every fourth a structure that has a string's shape but not its LEN / DATA names; "
         "two thirds of the Program: / Routine: / Task: / Map: symbols carry the system-symbol types genuine controllers list (0x1068 / 0x106D / 0x1070 / 0x1069), "
-        "a fifth of the module names end in Map / Cxn / _Task / Program; a redundant second open() in a quarter of the scenarios and a get_plc_info() between "
-        "uploads in 40 % change nothing) are uploaded through open() / get_tag_list(None | '*' | program) "
+        "a fifth of the module names end in Map / Cxn / _Task / Program; a redundant second open() in a quarter of the scenarios, three whole-tag reads between uploads in half and a get_plc_info() between "
+        "uploads in 40 % change nothing; every fourth project holds a TIMER-shaped predefined type (70 % in the bare-name template form on firmware >= 32), "
+        "12 % of the UDTs end in unnamed pad members; after every upload tags_json equals tags minus the type classes) are uploaded through open() / get_tag_list(None | '*' | program) "
         "under target-chosen symbol pagination {1,2,3,random,all} and template fragmentation {1..8,random,all}, firmware {16..32}; the "
         "uploaded tags / data_types / info are compared field by field with the project model, get_tag_info(tag | tag[i].member.member[j]...) "
         "must return the same definitions, every uploaded type class must decode "
@@ -230,10 +231,23 @@ def check_upload(res, sc, drv, program_arg, keyp=""):
     # JSON view
     res.ev()
     try:
-        js = json.dumps(drv.tags_json, sort_keys=True)
+        tj = drv.tags_json
+        js = json.dumps(tj, sort_keys=True)
     except Exception as e:  # noqa
         res.violation(f"{keyp}tags_json-not-serialisable", f"json.dumps(tags_json) raised {e!r:.200} ({sc.label})", wit)
-        js = None
+        return None
+    # tags_json is `tags` without the type classes - the CURRENT tags, also after a re-upload that changed a definition (the tag list
+    # above was compared with the controller field by field; the JSON view must say the same)
+
+    def plain(x):
+        if isinstance(x, dict):
+            return {k: plain(v) for k, v in x.items() if k not in ("type_class", "_struct_members")}
+        return x
+    res.ev()
+    want_tj = plain(drv.tags)
+    if tj != want_tj:
+        bad = sorted(k for k in set(tj) | set(want_tj) if tj.get(k) != want_tj.get(k))
+        res.violation(f"{keyp}tags_json-differs-from-tags", f"tags_json disagrees with tags for {bad[:3]!r} ({len(bad)} tags; {sc.label}): e.g. {str(tj.get(bad[0]))[:120]} vs {str(want_tj.get(bad[0]))[:120]}", wit)
     return js
 
 
@@ -343,6 +357,15 @@ def run(ctx):
                     else:
                         js0 = check_upload(res, sc, sc.drv, "*" if ipt else None, keyp="after-edit:")
             # ---- scoped uploads -------------------------------------------------------------------------------------------
+            if rng.random() < 0.5:
+                # using the driver does not rewrite what it uploaded: after a few reads (whole tags, by symbol instance where the
+                # firmware allows) `tags` / `tags_json` still mirror the controller and still serialise
+                names_ = [t.full_name for t in sc.prj.user_tags() if t.kind == "user" and len(t.data) <= 400]
+                for nm_ in rng.sample(names_, min(3, len(names_))):
+                    sc.b.call("read", sc.drv.read, nm_)
+                sc.dev.finish_transfers()
+                res.count("reads-between-uploads")
+                check_upload(res, sc, sc.drv, "*" if ipt else None, keyp="after-reads:")
             if rng.random() < 0.4:
                 # the information helpers are queries: asking the controller who it is (again) takes nothing away from what the driver
                 # has uploaded - tags, data types, the program / task lists and with them the scoped uploads below
